@@ -375,6 +375,7 @@ func gen(tier string, r *lib.Rand, emit func(string)) {
 		}
 	}
 	genHist(thorough, nrand, r, emit)
+	genBhist(thorough, nrand, r, emit)
 }
 
 // dedup removes repeated values from an ascending list (the harness's own code).
@@ -571,6 +572,8 @@ func call(c string) (line string, mutated string) {
 		return runVhist(f[1]), ""
 	case "lhist":
 		return runLhist(f[1]), ""
+	case "bhist":
+		return runBhist(f[1]), ""
 	default:
 		panic("unknown case " + c)
 	}
@@ -1004,6 +1007,344 @@ func genHist(thorough bool, nrand int, r *lib.Rand, emit func(string)) {
 	}
 }
 
+// ---- bhist: big-integer registers; the caller may overwrite ("scribble") a value it was given ----
+//
+// Every register is a list of integers (single results are one-element lists). "scribble:a:k:m"
+// writes to element k of register a IN PLACE, as a caller using a returned value as its own
+// accumulator would; afterwards every later call must still return its mathematical value and
+// every other register must be unchanged. Results that are documented to share integers with
+// their arguments (MinMax returns its arguments; Unique/MergeUnique/Concat return their
+// arguments' elements) are expected to alias: such registers, and the registers they were
+// computed from, are never scribbled by the generator (the reference marks that as unspecified).
+
+func runBhist(prog string) string {
+	var regs [][]*big.Int
+	elem := func(a, k int) *big.Int {
+		if a >= len(regs) || k >= len(regs[a]) {
+			return nil
+		}
+		return regs[a][k]
+	}
+	for _, ins := range strings.Split(prog, ";") {
+		f := strings.Split(ins, ":")
+		a := func(k int) int { return lib.Atoi(f[k]) }
+		switch f[0] {
+		case "lit":
+			regs = append(regs, []*big.Int{phx(f[1])})
+		case "pow2":
+			regs = append(regs, []*big.Int{verifhook.BigintPow2(uint(a(1)))})
+		case "ones":
+			regs = append(regs, []*big.Int{verifhook.BigintOnes(uint(a(1)))})
+		case "mask":
+			regs = append(regs, []*big.Int{verifhook.BigintMask(uint(a(1)), uint(a(2)))})
+		case "extract":
+			x := elem(a(1), a(2))
+			if x == nil {
+				return "err badreg"
+			}
+			regs = append(regs, []*big.Int{verifhook.BigintExtract(x, uint(a(3)), uint(a(4)))})
+		case "minmax":
+			x, y := elem(a(1), a(2)), elem(a(3), a(4))
+			if x == nil || y == nil {
+				return "err badreg"
+			}
+			mn, mx := verifhook.BigintMinMax(x, y)
+			regs = append(regs, []*big.Int{mn, mx})
+		case "pow2upto":
+			x := elem(a(1), a(2))
+			if x == nil {
+				return "err badreg"
+			}
+			regs = append(regs, verifhook.BigintPow2UpTo(x))
+		case "uint64s":
+			x := elem(a(1), a(2))
+			if x == nil {
+				return "err badreg"
+			}
+			if x.Sign() < 0 {
+				return "err negative" // never terminates in Go
+			}
+			ws := verifhook.BigintUint64s(x)
+			bs := make([]*big.Int, len(ws))
+			for i, w := range ws {
+				bs[i] = new(big.Int).SetUint64(w)
+			}
+			regs = append(regs, bs)
+		case "unique":
+			if a(1) >= len(regs) {
+				return "err badreg"
+			}
+			regs = append(regs, verifhook.BigintsUnique(regs[a(1)]))
+		case "merge", "concat":
+			if a(1) >= len(regs) || a(2) >= len(regs) {
+				return "err badreg"
+			}
+			if f[0] == "merge" {
+				regs = append(regs, verifhook.BigintsMergeUnique(regs[a(1)], regs[a(2)]))
+			} else {
+				regs = append(regs, verifhook.BigintsConcat(regs[a(1)], regs[a(2)]))
+			}
+		case "scribble":
+			r := elem(a(1), a(2))
+			if r == nil {
+				return "err badreg"
+			}
+			switch a(3) {
+			case 0:
+				r.Add(r, one)
+			case 1:
+				r.Lsh(r, 8)
+			case 2:
+				r.SetInt64(0)
+			default:
+				r.Not(r)
+			}
+			regs = append(regs, []*big.Int{new(big.Int).Set(r)})
+		default:
+			panic("unknown bhist instruction " + ins)
+		}
+	}
+	return fmtRegs(regs)
+}
+
+type bref struct {
+	regs    [][]*big.Int
+	aliased []bool // shares integers with another register by contract
+	unspec  bool
+	badline string
+}
+
+func (st *bref) step(ins string) {
+	f := strings.Split(ins, ":")
+	a := func(k int) int { return lib.Atoi(f[k]) }
+	push := func(l ...*big.Int) {
+		if l == nil {
+			l = []*big.Int{}
+		}
+		st.regs = append(st.regs, l)
+		st.aliased = append(st.aliased, false)
+	}
+	elem := func(ra, k int) *big.Int {
+		if ra >= len(st.regs) || k >= len(st.regs[ra]) {
+			st.badline = "err badreg"
+			return nil
+		}
+		return st.regs[ra][k]
+	}
+	list := func(ra int) []*big.Int {
+		if ra >= len(st.regs) {
+			st.badline = "err badreg"
+			return nil
+		}
+		return st.regs[ra]
+	}
+	share := func(rs ...int) {
+		for _, r := range rs {
+			st.aliased[r] = true
+		}
+	}
+	switch f[0] {
+	case "lit":
+		push(phx(f[1]))
+	case "pow2":
+		push(pow(a(1)))
+	case "ones":
+		push(new(big.Int).Sub(pow(a(1)), one))
+	case "mask":
+		if a(1) > a(2) {
+			st.unspec = true
+		}
+		push(new(big.Int).Sub(pow(a(2)), pow(a(1))))
+	case "extract":
+		if x := elem(a(1), a(2)); x != nil {
+			if x.Sign() < 0 || a(3) > a(4) {
+				st.unspec = true
+				push(new(big.Int))
+				return
+			}
+			q := new(big.Int).Div(x, pow(a(3)))
+			push(q.Mod(q, pow(a(4)-a(3))))
+		}
+	case "minmax":
+		x := elem(a(1), a(2))
+		y := elem(a(3), a(4))
+		if x != nil && y != nil {
+			if x.Cmp(y) > 0 {
+				x, y = y, x
+			}
+			push(new(big.Int).Set(x), new(big.Int).Set(y))
+			share(a(1), a(3), len(st.regs)-1)
+		}
+	case "pow2upto":
+		if x := elem(a(1), a(2)); x != nil {
+			var l []*big.Int
+			for k := 0; pow(k).Cmp(x) <= 0; k++ {
+				l = append(l, pow(k))
+			}
+			push(l...)
+		}
+	case "uint64s":
+		if x := elem(a(1), a(2)); x != nil {
+			if x.Sign() < 0 {
+				st.badline = "err negative"
+				return
+			}
+			var l []*big.Int
+			for y := new(big.Int).Set(x); y.Sign() > 0; y.Div(y, pow(64)) {
+				l = append(l, new(big.Int).Mod(y, pow(64)))
+			}
+			push(l...)
+		}
+	case "unique":
+		if u := list(a(1)); u != nil {
+			push(dedup(lib.CloneInts(u))...)
+			share(a(1), len(st.regs)-1)
+		}
+	case "merge", "concat":
+		u, v := list(a(1)), list(a(2))
+		if u != nil && v != nil {
+			if f[0] == "concat" {
+				push(append(lib.CloneInts(u), lib.CloneInts(v)...)...)
+			} else {
+				if !isSD(u) || !isSD(v) {
+					st.unspec = true
+				}
+				push(dedup(sortedInts(append(lib.CloneInts(u), v...)))...)
+			}
+			share(a(1), a(2), len(st.regs)-1)
+		}
+	case "scribble":
+		if x := elem(a(1), a(2)); x != nil {
+			if st.aliased[a(1)] {
+				st.unspec = true
+			}
+			v := new(big.Int)
+			switch a(3) {
+			case 0:
+				v.Add(x, one)
+			case 1:
+				v.Mul(x, big.NewInt(256))
+			case 2:
+			default:
+				v.Neg(x)
+				v.Sub(v, one)
+			}
+			l := lib.CloneInts(st.regs[a(1)])
+			l[a(2)] = v
+			st.regs[a(1)] = l
+			push(new(big.Int).Set(v))
+		}
+	}
+}
+
+func refBhist(prog string) *bref {
+	st := &bref{}
+	for _, ins := range strings.Split(prog, ";") {
+		st.step(ins)
+		if st.badline != "" {
+			break
+		}
+	}
+	return st
+}
+
+func genBhist(thorough bool, nrand int, r *lib.Rand, emit func(string)) {
+	// every n in 0..70, every kind of write: the same n requested before and after the caller
+	// scribbles on what it was given; knock-on users of Ones (Uint64s masks with Ones(64))
+	big70 := hx(new(big.Int).Add(pow(70), big.NewInt(0x1234567)))
+	for n := 0; n <= 70; n++ {
+		for m := 0; m <= 3; m++ {
+			emit(fmt.Sprintf("bhist ones:%d;pow2:%d;mask:0:%d;scribble:0:0:%d;ones:%d;scribble:1:0:%d;pow2:%d;scribble:2:0:%d;mask:0:%d;"+
+				"lit:%s;extract:9:0:0:%d;uint64s:9:0;ones:64;scribble:12:0:%d;uint64s:9:0;extract:9:0:3:%d;ones:%d;ones:64;scribble:10:0:%d;extract:9:0:0:%d",
+				n, n, n, m, n, m, n, m, n, big70, n, m, n+3, n, m, n))
+			emit(fmt.Sprintf("bhist ones:%d;scribble:0:0:%d;ones:%d;scribble:2:0:%d;ones:%d;ones:%d", n, m, n, (m+1)%4, n, n))
+		}
+		// the repunit idiom: r := Ones(n); r.Lsh(r, 8); then Ones(n) again
+		emit(fmt.Sprintf("bhist ones:%d;scribble:0:0:1;ones:%d;mask:%d:%d;scribble:3:0:1;mask:%d:%d;pow2upto:2:0;scribble:6:0:2;pow2upto:2:0;uint64s:2:0;scribble:9:0:0;uint64s:2:0",
+			n, n, n/2, n, n/2, n))
+	}
+	// random programs
+	for t := 0; t < 6*nrand; t++ {
+		st := &bref{}
+		var prog []string
+		do := func(ins string) { prog = append(prog, ins); st.step(ins) }
+		small := func() int {
+			if r.Chance(1, 6) {
+				return r.Range(60, 70)
+			}
+			return r.Range(0, 70)
+		}
+		pick := func(nonneg bool) (int, int, bool) { // a register element
+			for tries := 0; tries < 8; tries++ {
+				a := r.Intn(len(st.regs))
+				if len(st.regs[a]) == 0 {
+					continue
+				}
+				k := r.Intn(len(st.regs[a]))
+				if nonneg && st.regs[a][k].Sign() < 0 {
+					continue
+				}
+				return a, k, true
+			}
+			return 0, 0, false
+		}
+		last := small()
+		do(fmt.Sprintf("ones:%d", last))
+		for k, m := 0, r.Range(4, 12); k < m; k++ {
+			n := small()
+			if r.Chance(1, 2) {
+				n = last // the same n around a scribble
+			}
+			last = n
+			switch c := r.Intn(24); {
+			case c < 5:
+				do(fmt.Sprintf("ones:%d", n))
+			case c < 7:
+				do(fmt.Sprintf("pow2:%d", n))
+			case c < 9:
+				l := r.Intn(n + 1)
+				do(fmt.Sprintf("mask:%d:%d", l, n))
+			case c < 15:
+				if a, e, ok := pick(false); ok && !st.aliased[a] {
+					do(fmt.Sprintf("scribble:%d:%d:%d", a, e, r.Intn(4)))
+				}
+			case c < 17:
+				if a, e, ok := pick(true); ok {
+					l := r.Intn(n + 1)
+					do(fmt.Sprintf("extract:%d:%d:%d:%d", a, e, l, n))
+				}
+			case c < 19:
+				if a, e, ok := pick(true); ok {
+					do(fmt.Sprintf("uint64s:%d:%d", a, e))
+				}
+			case c < 20:
+				if a, e, ok := pick(false); ok && st.regs[a][e].BitLen() <= 200 {
+					do(fmt.Sprintf("pow2upto:%d:%d", a, e))
+				}
+			case c < 21:
+				a, e, ok1 := pick(false)
+				b, g, ok2 := pick(false)
+				if ok1 && ok2 {
+					do(fmt.Sprintf("minmax:%d:%d:%d:%d", a, e, b, g))
+				}
+			case c < 22:
+				do(fmt.Sprintf("unique:%d", r.Intn(len(st.regs))))
+			case c < 23:
+				do(fmt.Sprintf("concat:%d:%d", r.Intn(len(st.regs)), r.Intn(len(st.regs))))
+			default:
+				var sds []int
+				for i, l := range st.regs {
+					if isSD(l) {
+						sds = append(sds, i)
+					}
+				}
+				do(fmt.Sprintf("merge:%d:%d", sds[r.Intn(len(sds))], sds[r.Intn(len(sds))]))
+			}
+		}
+		emit("bhist " + strings.Join(prog, ";"))
+	}
+}
+
 // ---- oracle: the mathematical definitions, written independently ----
 
 func isSD(l []*big.Int) bool {
@@ -1077,7 +1418,7 @@ func oracle(c, res string) string {
 		return "unexpected " + res
 	}
 	// arguments unmodified, result reproducible: run again on fresh copies
-	if f[0] != "sort" {
+	if f[0] != "sort" && !strings.HasSuffix(f[0], "hist") { // histories: the value check below is complete
 		line, mut := call(c)
 		if mut != "" {
 			return mut
@@ -1400,6 +1741,18 @@ func oracle(c, res string) string {
 		if res != want {
 			return "a register does not hold its mathematical value at the end: want " + want
 		}
+	case "bhist":
+		st := refBhist(f[1])
+		if st.unspec {
+			return "" // out of range
+		}
+		want := st.badline
+		if want == "" {
+			want = fmtRegs(st.regs)
+		}
+		if res != want {
+			return "a register or a later result does not hold its mathematical value: want " + want
+		}
 	case "lhist":
 		st := refLhist(f[1])
 		if st.unspec {
@@ -1430,7 +1783,7 @@ var argKinds = map[string]string{
 
 func neighbours(c string, r *lib.Rand, emit func(string)) {
 	f := strings.Split(c, " ")
-	if f[0] == "vhist" || f[0] == "lhist" {
+	if f[0] == "vhist" || f[0] == "lhist" || f[0] == "bhist" {
 		// every prefix (registers only refer backwards, so prefixes stay well-formed) and the
 		// program with each instruction repeated at the end
 		ins := strings.Split(f[1], ";")
@@ -1438,7 +1791,7 @@ func neighbours(c string, r *lib.Rand, emit func(string)) {
 			emit(f[0] + " " + strings.Join(ins[:k], ";"))
 		}
 		for _, i := range ins {
-			if !strings.HasPrefix(i, "sort:") {
+			if !strings.HasPrefix(i, "sort:") && !strings.HasPrefix(i, "scribble:") {
 				emit(f[0] + " " + f[1] + ";" + i)
 			}
 		}
